@@ -362,6 +362,10 @@ def parse_set_cookie_headers(headers: Sequence[str]) -> list[tuple[str, Morsel[s
                     else:
                         parsed_cookies.append((key, current_morsel))
                         morsel_seen = True
+            elif morsel_seen and ";" in header[match.start(0) : i]:
+                # Junk (an attribute nobody knows, a word without "="): the
+                # pattern has consumed the ";" that ends it, go on behind it.
+                continue
             elif morsel_seen and ";" in header[i:]:
                 # Junk between two ";" must not cost the cookie the
                 # attributes that follow it (Secure, Path, ...): skip it.
